@@ -240,7 +240,7 @@ Definition ex_cfg : acfg :=
 Definition ex_client : aclient := mkAClient "c1" (Some ES384) None (Some PS256) None None None (Some true).
 Definition ex_in : authz_in :=
   mkAuthzIn "alice" "n-1" "openid email"
-    (mkParams 0 "https://c1.example/cb" "" "code id_token token" "openid email" "st" "n-1" PkEmpty "" 0 "" 0 "" [])
+    (mkParams 0 "https://c1.example/cb" "" "code id_token token" "openid email" "st" "n-1" PkEmpty "" 0 "" 0 "" [] None)
     (mint 3 KCode) 0.
 Example ex_finish_flow :
   match finish_flow ex_cfg 3 1000%Z ex_client (mkTokOpts true PS256 300) ex_in with
